@@ -206,7 +206,7 @@ func checkC20(c *Ctx) (int, error) {
 	c.ev.Assumptions = []string{"the bound is a numeric claim over all inputs: it is checked as a clause of WriterContract on every observed Close for seeded adversarial distributions (uniform, flattest histogram, Fibonacci-skewed, token-dense, sparse) and every period 1..64; TLC validates, it cannot explain the bound"}
 	rng := rand.New(rand.NewSource(c.Seed))
 	var cases []*WCase
-	sizes := []int{0, 1, 2, 100, 4096, 65535, 65536, 65537, 200000}
+	sizes := []int{0, 1, 2, 100, 4096, 65535, 65536, 65537, 131072, 200000, 262144}
 	if c.Tier == "thorough" {
 		sizes = append(sizes, 1<<20, 3<<20, 8450, 65794, 131072)
 	}
@@ -228,7 +228,7 @@ func checkC20(c *Ctx) (int, error) {
 		c.ev.nontrivial(fmt.Sprintf("%s|%s|%d|%d", cs.Tag, d.Class, d.Len, d.Period))
 	}
 	for _, set := range accelSettings {
-		for _, cl := range []string{"uniform", "nearuniform", "fib", "tokendense", "sparse", "alpha3"} {
+		for _, cl := range []string{"uniform", "nearuniform", "fib", "tokendense", "sparse", "alpha3", "dom50", "dom25"} {
 			for _, n := range sizes {
 				add(set, DataSpec{Class: cl, Seed: rng.Int63n(1 << 30), Len: n}, rng.Intn(2) == 0)
 			}
@@ -249,7 +249,7 @@ func checkC20(c *Ctx) (int, error) {
 			}
 		}
 	}
-	c.ev.Rule = "accelerated settings (levels -2,-1,1,2 x 32K/4K window) x data classes {uniform, flattest histogram, Fibonacci-skewed, token-dense, sparse, 8-letter} x sizes {0,1,2,100,4096,65535..65537,200000 (thorough: up to 3 MiB)}, and periods 1..64 x {65536, 100000 (thorough: 1 MiB)} for levels 1,2,-1, one or several Writes then Close, at every acceleration level; distinct by (setting, class, size, period)"
+	c.ev.Rule = "accelerated settings (levels -2,-1,1,2 x 32K/4K window) x data classes {uniform, flattest histogram, Fibonacci-skewed, token-dense, sparse, 8-letter, one value just over 1/2 resp. 1/4 of the input} x sizes {0,1,2,100,4096,65535..65537,131072,200000,262144 (thorough: up to 3 MiB)}, and periods 1..64 x {65536, 100000 (thorough: 1 MiB)} for levels 1,2,-1, one or several Writes then Close, at every acceleration level; distinct by (setting, class, size, period)"
 	for _, cs := range cases[:minInt(3, len(cases))] {
 		c.ev.sample(map[string]interface{}{"history": histString(cs.Ops), "setting": cs.Tag, "data": cs.Data})
 	}
